@@ -80,11 +80,14 @@ CLAIMED = {
             "`_`, packed structs, nested patterns, ZST fields): every element is handed out or dropped exactly once, `_`/`..` elements are "
             "dropped at the macro, ids and payloads arrive in order and bit-for-bit. Generated programs are first compiled with rustc; "
             "panics unwind nothing under Kani, so leak-on-panic is outside the claim.", "DESIGN.md#c15"),
-    "C16": (BMC + "std == / Ord::cmp on symbolic pairs (lexicographic reference for slices), should_panic twins for assertc_eq!/assertc_ne!",
+    "C16": (BMC + "std == / Ord::cmp on symbolic pairs (lexicographic reference for slices), should_panic twins for assertc_eq!/assertc_ne!; bool ordering: symbolic execution of the functions' MIR into z3 (mirsmt.py), counterexamples replayed natively",
             "Scalars, NonZero*, Ordering, ranges and Option of them are compared with std over their whole domains (exhaustive per pair); "
             "strings, slices of every primitive, slices of strings/byte slices over all contents up to the stated lengths (all length "
-            "combinations); order axioms on triples. Not decidable here: the ordering of bool (Kani 0.68 mis-models `<` on bool) - only "
-            "bool equality is claimed. Open finding: exhausted RangeInclusive.", "DESIGN.md#c16"),
+            "combinations); order axioms on triples. The ordering of bool (Kani 0.68 mis-models `<` on symbolic bool) is decided by a second "
+            "engine instead: the MIR of cmp_bool and cmp_option_bool, dumped from the current tree on every run, is executed symbolically "
+            "path by path into z3 and compared with Ord (whole domain, loop-free, translator validated against the native functions on "
+            "every concrete input); cmp_slice_bool ordering and const_cmp!(bool) expansions stay unclaimed (bool equality is claimed for "
+            "all of them). Open finding: exhausted RangeInclusive.", "DESIGN.md#c16"),
     "C06": (BMC + "a naive first/last-occurrence splitter: one step (+ the following call) from every state of each split iterator, bounded protocols to exhaustion, the empty-delimiter rule",
             "Every state of a split iterator is its not-yet-split part plus Normal/Finished, and split(&s[a..b], d) is that state; one "
             "step from every window of every string up to the bound, for str (1..=2 bytes) and char delimiters, yields the piece up to the "
@@ -163,6 +166,13 @@ def main():
                               "harness crate /verif/harness) to a goto program, CBMC 6.11 unwinds it to the stated bounds with "
                               "unwinding assertions on, cadical decides; counterexamples are replayed natively (concrete playback) "
                               "before a VIOLATION is printed",
+        }, {
+            "name": "mir-z3", "path": "mirsmt.py",
+            "serves_properties": ["C16"],
+            "kind_free_text": "symbolic execution of rustc's MIR (nightly -Zunpretty=mir of /repo's current tree, regenerated every run) "
+                              "of loop-free functions into z3 terms, one query per path plus a totality query; used where Kani's model "
+                              "of an operator is wrong (`<` on bool). Called by ./check C16; unknown MIR forms make the run inconclusive; "
+                              "the translator is validated against the natively compiled functions on every concrete input each run",
         }],
         "checks": checks,
         "not_applicable": na,
